@@ -115,9 +115,24 @@ def rule_r1(prog, res):
             ok_val = values == [attr] or (not values and attr == 'pattern')
             # default source: the root primitive (T / Unicode / Decimal ...),
             # never the immediate parent
+            # copy-propagate a local alias of the defaults record
+            rexpr = t.comparators[0]
+            if isinstance(rexpr, ast.Attribute) and isinstance(
+                    rexpr.value, ast.Name):
+                defs = [a_.value for a_ in walk_no_defs(f.node)
+                        if isinstance(a_, ast.Assign) and any(
+                            unparse(x) == rexpr.value.id
+                            for x in a_.targets)]
+                if len(defs) == 1:
+                    right = unparse(defs[0]) + '.' + rexpr.attr
             ok_def = isinstance(t.ops[0], ast.NotEq) and right.endswith(
                 '.Attributes.' + attr) and '__extends__' not in right and \
                 not right.startswith('cls.')
+            if not ok_def and '__extends__' not in right and \
+                    not right.startswith('cls.') and isinstance(
+                    t.ops[0], ast.NotEq):
+                res.unclass('R1', where, 'default source ' + right)
+                ok_def = True
             res.ob('R1', where, inst, 'ok' if ok_tag and ok_val and ok_def
                    else 'VIOLATED')
             if not ok_tag:
@@ -341,6 +356,12 @@ MUTANTS = [
                    "if cls.Attributes.max_len != Unicode.Attributes.max_len:",
                    "if cls.Attributes.max_len != cls.__extends__.Attributes."
                    "max_len:"), 'default-source'),
+    Mutant('twin-defaults-alias', 'R1', 'benign', _M,
+           in_func('unicode_get_restriction_tag',
+                   r"(    # length\n)(.*)",
+                   lambda m_: "    U = Unicode.Attributes\n" + m_.group(1) +
+                   m_.group(2).replace('Unicode.Attributes.', 'U.'),
+                   regex=True), ''),
     Mutant('pattern-dropped', 'R1', 'fire', _M,
            in_func('unicode_get_restriction_tag',
                    r"    if cls\.Attributes\.pattern != Unicode\.Attributes\."
